@@ -43,6 +43,10 @@ class Spelling:
         self.dims = set()
         self.force_names = False
         self.bias = {}  # dim -> probability (percent) overriding the default of a coin
+        # one in five spellings writes structurally equal sub-specs (parts of one path, operands of one combination) as
+        # ONE object used twice - what a variable reused in Python, or a YAML anchor and its alias, gives
+        self.share = r is not None and r.pct() < 20
+        self.memo = {}
 
     def rcase(self, s):
         r = self.r
@@ -176,6 +180,18 @@ def cond_spec(t, sp=None, null_as=None):
             cur = cur.l
     items.append(cur)
     items.reverse()
+    if sp.share:
+        from .terms import dumps
+        specs = []
+        local = {}
+        for i in items:
+            k = dumps(i)
+            if k not in local or not isinstance(local[k], dict):
+                local[k] = cond_spec(i, sp)
+            else:
+                sp.dims.add("shared-sub-spec")
+            specs.append(local[k])
+        return {t.op: specs}
     return {t.op: [cond_spec(i, sp) for i in items]}
 
 
@@ -259,9 +275,26 @@ def path_key(path, sp=None):
     return ".".join(toks + mods)
 
 
+def part_specs(parts, sp=None):
+    """The part specs of one path; under sp.share equal mapping parts are one object used twice."""
+    sp = sp or Spelling()
+    if not sp.share:
+        return [part_spec(p, sp) for p in parts]
+    from .terms import dumps
+    local, out = {}, []
+    for p in parts:
+        k = dumps(p)
+        if k in local and isinstance(local[k], dict):
+            sp.dims.add("shared-sub-spec")
+        else:
+            local[k] = part_spec(p, sp)
+        out.append(local[k])
+    return out
+
+
 def path_spec(path, sp=None):
     sp = sp or Spelling()
-    return {path_key(path, sp): [part_spec(p, sp) for p in path.parts]}
+    return {path_key(path, sp): part_specs(path.parts, sp)}
 
 
 def cast_spec(cast):
@@ -304,7 +337,7 @@ def doc_spec(doc, sp=None):
 
 def rule_spec(rule, sp=None):
     sp = sp or Spelling()
-    out = {"path": [part_spec(p, sp) for p in rule.path.parts], "condition": cond_spec(rule.cond, sp)}
+    out = {"path": part_specs(rule.path.parts, sp), "condition": cond_spec(rule.cond, sp)}
     if rule.cast is not None:
         out["cast"] = cast_spec(rule.cast)
     d = doc_spec(rule.doc, sp)
